@@ -452,7 +452,157 @@ func (h *hist) scanQueues(ctx sdk.Context, where string) {
 				h.rec.Count("hist_valset_of_older_snapshot", 1)
 			}
 		}
+		h.scanUploads(ctx, cref, where)
 	}
+}
+
+// scanUploads: a compass deployment carries, as constructor argument, the validator set the new compass
+// starts with on that chain - a validator set sent to a remote chain like an UpdateValset, and gated by the
+// same isEnoughToReachConsensus. Same projection oracle, same gate. Remote addresses come back from the ABI
+// as 20 raw bytes, so they are matched with the accounts of the snapshot case-insensitively.
+func (h *hist) scanUploads(ctx sdk.Context, cref, where string) {
+	ups, ok := readUploadMessages(h.c, ctx, cref)
+	if !ok {
+		return
+	}
+	for _, u := range ups {
+		key := fmt.Sprintf("upload/%s/%d/%d", cref, u.MsgID, u.ContractID)
+		if h.seenMsgs[key] {
+			continue
+		}
+		h.seenMsgs[key] = true
+		if u.Err != "" {
+			h.rec.Count("hist_upload_messages_not_decodable", 1)
+			continue
+		}
+		h.rec.Eval(1)
+		h.rec.Count("valset_messages_checked", 1)
+		h.rec.Count("hist_upload_valsets_checked", 1)
+		if !u.Valset.ValsetId.IsUint64() {
+			h.viol("valset/refers-to-unknown-snapshot", fmt.Sprintf("%s: compass deployment %d for %s carries valset id %s", where, u.ContractID, cref, u.Valset.ValsetId), nil)
+			continue
+		}
+		s, err := h.c.App.ValsetKeeper.FindSnapshotByID(ctx, u.Valset.ValsetId.Uint64())
+		if err != nil || s == nil {
+			h.viol("valset/refers-to-unknown-snapshot", fmt.Sprintf("%s: compass deployment %d for %s with valset id %s: %v", where, u.ContractID, cref, u.Valset.ValsetId, err), nil)
+			continue
+		}
+		pre := refProject(s, cref)
+		got := &evmtypes.Valset{ValsetID: u.Valset.ValsetId.Uint64()}
+		tooBig := false
+		for i, a := range u.Valset.Validators {
+			name := a.Hex()
+			for known := range pre.ByAddr {
+				if strings.EqualFold(known, name) {
+					name = known
+					break
+				}
+			}
+			got.Validators = append(got.Validators, name)
+			if i < len(u.Valset.Powers) {
+				if !u.Valset.Powers[i].IsUint64() {
+					tooBig = true
+					got.Powers = append(got.Powers, ^uint64(0))
+				} else {
+					got.Powers = append(got.Powers, u.Valset.Powers[i].Uint64())
+				}
+			}
+		}
+		for i := len(u.Valset.Validators); i < len(u.Valset.Powers); i++ {
+			got.Powers = append(got.Powers, 0) // length mismatch is reported by compareProjection
+		}
+		w := map[string]any{"chain": cref, "msg_id": u.MsgID, "smart_contract_id": u.ContractID, "snapshot": snapWitness(s), "got_validators": got.Validators, "got_powers": got.Powers, "where": where}
+		if tooBig {
+			h.viol("valset/power-not-floor/gross", where+": compass deployment carries a power above 2^64", w)
+			continue
+		}
+		issues, rv := compareProjection(s, cref, got)
+		for _, is := range issues {
+			h.viol(is.Sig, where+": compass deployment (constructor valset): "+is.Msg, w)
+		}
+		if rv.Sum.Cmp(threshold) < 0 {
+			h.viol(gateSignature(got),
+				fmt.Sprintf("%s: compass %d deployment with valset %d enqueued for %s although the rounded-down powers sum to %s < 2863311530 (sent powers sum %s)", where, u.ContractID, s.Id, cref, rv.Sum, sumPowers(got)), w)
+		}
+		if len(rv.Entries) < len(s.Validators) {
+			h.rec.Count("hist_upload_valset_restricted_to_subset", 1)
+		}
+		if h.active[cref] {
+			h.rec.Count("hist_upload_valset_to_active_chain", 1)
+		}
+	}
+}
+
+// compassProbe: on a throw-away fork a NEW compass version is released through the calls the governance
+// handler makes for DeployNewSmartContractProposal (SaveNewSmartContract + SetAsCompassContract); the evm
+// module then queues one deployment per chain, each carrying the current snapshot projected to that chain.
+// Before that every known chain gets a fee manager (SetFeeManagerAddressProposal's keeper call; without it
+// the deployment is refused before the gate is reached), and in every second probe a known but inactive
+// chain is activated on the fork first, so that the current snapshot predates the activation and may contain
+// validators without an account there. The probe draws nothing from the history's PRNG and writes nothing
+// to the working state: histories are bit-identical with and without it.
+func (h *hist) compassProbe() {
+	fork := h.c.Fork(h.c.Height+1, h.c.Time.Add(2*time.Second))
+	where := "compass-upgrade-probe"
+	ek := h.c.App.EvmKeeper
+	err := func() (err error) {
+		defer func() {
+			if e := recover(); e != nil {
+				err = fmt.Errorf("panic: %v", e)
+			}
+		}()
+		for _, cref := range h.knownSorted() {
+			_ = ek.SetFeeManagerAddress(fork, cref, "0x00000000000000000000000000000000000000fe")
+		}
+		if (h.c.Height/10)%2 == 0 {
+			var cands []string
+			for _, c := range h.knownSorted() {
+				if !h.active[c] {
+					cands = append(cands, c)
+				}
+			}
+			if len(cands) > 0 {
+				cref := cands[int(h.c.Height/20)%len(cands)]
+				idx := 0
+				for i, cd := range allChains {
+					if cd.Ref == cref {
+						idx = i
+					}
+				}
+				if sc, e := ek.GetLastCompassContract(fork); e == nil {
+					if e := ek.ActivateChainReferenceID(fork, cref, sc, compassAddr(idx), []byte("compass-"+cref)); e == nil {
+						where = "compass-upgrade-probe-after-activation"
+						h.rec.Count("compass_probe_activations", 1)
+					}
+				}
+			}
+		}
+		sc, e := ek.SaveNewSmartContract(fork, chain.CompassABI(), []byte("c10 probe compass "+fmt.Sprint(h.c.Height)))
+		if e != nil {
+			return e
+		}
+		if e := ek.SetAsCompassContract(fork, sc); e != nil {
+			h.rec.Count("compass_probe_set_as_compass_errors", 1) // refusals of single chains are reported as a group error
+		}
+		return nil
+	}()
+	h.rec.Count("compass_probes", 1)
+	if err != nil {
+		h.rec.Count("compass_probe_errors", 1)
+		return
+	}
+	if cur, e := h.c.App.ValsetKeeper.GetCurrentSnapshot(fork); e == nil && cur != nil {
+		for _, cref := range h.knownSorted() {
+			if refProject(cur, cref).Sum.Cmp(threshold) < 0 {
+				h.rec.Count("compass_probe_chain_below_two_thirds", 1)
+			}
+		}
+	}
+	save := h.snapshotMemory()
+	for _, cref := range h.knownSorted() {
+		h.scanUploads(fork, cref, where)
+	}
+	h.restoreMemory(save)
 }
 
 // ---------------------------------------------------------------------------------------------
@@ -1331,6 +1481,9 @@ func runHist(c fw.Case, tier string, rec *fw.Recorder) {
 		} else {
 			// blocks with transactions are never build heights; a snapshot appearing here is reported
 			h.observe(ch.Ctx(), nil, where, true)
+		}
+		if ch.Height%10 == 7 {
+			h.compassProbe()
 		}
 		if rec.Violations() > 40 {
 			break
